@@ -1705,6 +1705,10 @@ type ZEvent struct {
 	When  time.Time
 	Where Location
 }
+type ZOptEvent struct {
+	When  *time.Time
+	Where Location
+}
 
 type ZNestList []ZNestList
 type ZNestMap map[string]ZNestMap
@@ -1797,6 +1801,21 @@ func siC16(r *siReport) {
 		r.fail("typemapof-time-location", fmt.Sprintf("Location is %v", tm["Location"]))
 	} else {
 		r.ok("typemapof-time-location")
+	}
+	// nor behind a pointer (an optional timestamp), a slice or a map value
+	for name, typ := range map[string]reflect.Type{"pointer": reflect.TypeOf(ZOptEvent{}), "slice": reflect.TypeOf(struct {
+		Whens []time.Time
+		Where Location
+	}{}), "map": reflect.TypeOf(struct {
+		Whens map[string]*time.Time
+		Where Location
+	}{})} {
+		tm := TypeMapOf(typ)
+		if _, has := tm["Time"]; has || tm["Location"] != reflect.TypeOf(Location{}) {
+			r.fail("typemapof-time-behind-"+name, fmt.Sprintf("Time registered: %v, Location is %v", has, tm["Location"]))
+		} else {
+			r.ok("typemapof-time-behind-" + name)
+		}
 	}
 	// a struct with its own custom name that embeds a custom-named struct keeps its own name
 	{
